@@ -65,7 +65,20 @@ def array2string(a, *args, **kwargs):
     )
 
 
+def _refuse_offset_product(*operands):
+    # products of Celsius / Fahrenheit readings are refused, whatever the other
+    # factor is, exactly as the * operator refuses them
+    for operand in operands:
+        u = getattr(operand, "units", None)
+        if u is not None and u.base_offset and u.dimensions is temperature:
+            raise InvalidUnitOperation(
+                "Quantities with units of Fahrenheit or Celsius "
+                "cannot be multiplied, divided, subtracted or added."
+            )
+
+
 def product_helper(a, b, out, func):
+    _refuse_offset_product(a, b)
     prod_units = getattr(a, "units", NULL_UNIT) * getattr(b, "units", NULL_UNIT)
     if out is None:
         return func._implementation(np.asarray(a), np.asarray(b)) * prod_units
@@ -84,6 +97,7 @@ def dot(a, b, out=None):
 
 @implements(np.vdot)
 def vdot(a, b):
+    _refuse_offset_product(a, b)
     return np.vdot._implementation(np.asarray(a), np.asarray(b)) * (
         getattr(a, "units", NULL_UNIT) * getattr(b, "units", NULL_UNIT)
     )
@@ -91,6 +105,7 @@ def vdot(a, b):
 
 @implements(np.inner)
 def inner(a, b):
+    _refuse_offset_product(a, b)
     return np.inner._implementation(np.asarray(a), np.asarray(b)) * (
         getattr(a, "units", NULL_UNIT) * getattr(b, "units", NULL_UNIT)
     )
@@ -103,6 +118,7 @@ def outer(a, b, out=None):
 
 @implements(np.kron)
 def kron(a, b):
+    _refuse_offset_product(a, b)
     return np.kron._implementation(np.asarray(a), np.asarray(b)) * (
         getattr(a, "units", NULL_UNIT) * getattr(b, "units", NULL_UNIT)
     )
@@ -413,6 +429,7 @@ def concatenate(arrs, /, axis=0, out=None, *args, **kwargs):
 
 @implements(np.cross)
 def cross(a, b, *args, **kwargs):
+    _refuse_offset_product(a, b)
     prod_units = getattr(a, "units", NULL_UNIT) * getattr(b, "units", NULL_UNIT)
     return (
         np.cross._implementation(np.asarray(a), np.asarray(b), *args, **kwargs)
@@ -1191,6 +1208,8 @@ def einsum(*operands, out=None, **kwargs):
     subscripts, *operands = operands
     # einsum multiplies its operands: the result carries the product of their
     # units (a single operand keeps its unit)
+    if len(operands) > 1:
+        _refuse_offset_product(*operands)
     ret_units = getattr(operands[0], "units", NULL_UNIT)
     for operand in operands[1:]:
         ret_units = ret_units * getattr(operand, "units", NULL_UNIT)
@@ -1216,6 +1235,7 @@ def einsum(*operands, out=None, **kwargs):
 
 @implements(np.convolve)
 def convolve(a, v, *args, **kwargs):
+    _refuse_offset_product(a, v)
     ret_units = np.prod(get_units((a, v)))
     return (
         np.convolve._implementation(np.asarray(a), np.asarray(v), *args, **kwargs)
@@ -1225,6 +1245,7 @@ def convolve(a, v, *args, **kwargs):
 
 @implements(np.correlate)
 def correlate(a, v, *args, **kwargs):
+    _refuse_offset_product(a, v)
     ret_units = np.prod(get_units((a, v)))
     return (
         np.correlate._implementation(np.asarray(a), np.asarray(v), *args, **kwargs)
@@ -1234,6 +1255,7 @@ def correlate(a, v, *args, **kwargs):
 
 @implements(np.tensordot)
 def tensordot(a, b, *args, **kwargs):
+    _refuse_offset_product(a, b)
     ret_units = np.prod(get_units((a, b)))
     return (
         np.tensordot._implementation(np.asarray(a), np.asarray(b), *args, **kwargs)
@@ -1294,6 +1316,7 @@ elif NUMPY_VERSION >= Version("2.0.0dev0"):
 
 @implements(_trapezoid_func)
 def trapezoid(y, x=None, dx=1.0, *args, **kwargs):
+    _refuse_offset_product(y, x, dx)
     ret_units = y.units
     if x is None:
         ret_units = ret_units * getattr(dx, "units", NULL_UNIT)
